@@ -12,7 +12,7 @@ CONSTANTS
   Steps = {1, 2, 3}
   StrictAfter = FALSE
   StaleWindow = FALSE
-  MaxSetW = 3
+  MaxSetW = 2
 SPECIFICATION IPSpec
 PROPERTIES Conforms Isolation
 INVARIANT PerWindow
